@@ -107,14 +107,15 @@ BRowErr(op, w, sg, a, b) ==
     [] OTHER                               -> FALSE
 
 (* Is `out` the value of the operation (when it reports no error)?  `wit` is *)
-(* the witness of the relational forms: the remainder for a division, the    *)
-(* quotient for a remainder, the multiple of 2^w for a wrapping product      *)
+(* the witness of the relational forms: the quotient for a remainder, the    *)
+(* multiple of 2^w for a wrapping product (a quotient needs none: its        *)
+(* remainder is a - out*b)                                                    *)
 BRowVal(op, w, sg, a, b, out, wit) ==
   CASE op \in {"add", "sub", "mul", "neg"}   -> out = BExact(op, a, b)
     [] op \in {"add_w", "sub_w", "neg_w"}    -> out = BWrapNear(w, sg, BExact(op, a, b))
     [] op = "mul_w"                          -> BWrapOK(w, sg, Mul(a, b), out, wit)
     [] op \in DivOps -> IF BOverDiv(w, sg, a, b) THEN out = BMin(w, sg)     \* only div_w gets here
-                        ELSE IsTruncDiv(a, b, out, wit)
+                        ELSE IsTruncDiv(a, b, out, Sub(a, Mul(out, b)))
     [] op \in RemOps -> IF BOverDiv(w, sg, a, b) THEN IsZero(out)
                         ELSE IsTruncDiv(a, b, wit, out)
 
@@ -196,7 +197,7 @@ DecRowVal(op, w, s1, s2, l, r, out, wit) ==
       B == DecB(op, w, s1, s2, r)
   IN CASE o \in {"add", "sub", "mul"} -> out = BExact(o, A, B)
        [] o = "neg" -> out = Neg(l)
-       [] o = "div" -> IsTruncDiv(A, B, out, wit)
+       [] o = "div" -> IsTruncDiv(A, B, out, Sub(A, Mul(out, B)))
        [] o = "rem" -> IsTruncDiv(A, B, wit, out)
 
 (* the kernel multiplies in the native width before operating: an operand     *)
@@ -206,6 +207,64 @@ DecIntermediateOverflow(op, w, s1, s2, l, r) ==
   ~BIn(w, 1, DecA(op, w, s1, s2, l)) \/ ~BIn(w, 1, DecB(op, w, s1, s2, r))
 DecMultiplierOverflow(op, w, s1, s2) ==
   LET k == DecScaleUp(op, w, s1, s2) IN ~BIn(w, 1, Pow10(k[1])) \/ ~BIn(w, 1, Pow10(k[2]))
+
+(* bitwise folds on non-negative integers below 2^16 (wider values are logged *)
+(* as sequences of 16-bit chunks)                                             *)
+RECURSIVE BitOp(_, _, _, _)
+BitOp(f, a, b, n) ==       \* f in {"and", "or", "xor"} on n bits
+  IF n = 0 THEN 0
+  ELSE LET x == a % 2
+           y == b % 2
+           z == CASE f = "and" -> x * y [] f = "or" -> Max2(x, y) [] f = "xor" -> (x + y) % 2
+       IN z + 2 * BitOp(f, a \div 2, b \div 2, n - 1)
+(* -------------------- dates / timestamps +- day-time intervals ------------ *)
+(* The kernels go through chrono dates: a date +- (days, ms) is the date moved *)
+(* by `days` and by the whole days of `ms` (towards zero); every intermediate   *)
+(* date must lie in chrono's range -262143-01-01 .. 262142-12-31                *)
+ChronoMinDay == FromInt(-96465293)
+ChronoMaxDay == FromInt(95026236)
+InChronoDays(d) == Le(ChronoMinDay, d) /\ Le(d, ChronoMaxDay)
+ChronoMinS == FromWire(<<1, 5200, 131, 3346, 8>>)       \* -8334601315200 s
+ChronoMaxS == FromWire(<<0, 6799, 6687, 2102, 8>>)      \*  8210266876799 s
+InChronoS(sec) == Le(ChronoMinS, sec) /\ Le(sec, ChronoMaxS)
+MsPerDay == 86400000
+(* whole days of a millisecond count, towards zero (a Big below 2^63)          *)
+TruncDaysOfMs(x) == TruncDivSmall(TruncDivPow10(x, 5), 864)
+(* sgn = 1 (add) or -1 (sub); iv = <<days, ms>>: [err, v] in days               *)
+DateShift(d0, sgn, iv) ==
+  LET dd == IF sgn = 1 THEN iv[1] ELSE Neg(iv[1])
+      md == TruncDaysOfMs(IF sgn = 1 THEN iv[2] ELSE Neg(iv[2]))
+      d1 == Add(d0, dd)
+      d2 == Add(d1, md)
+  IN [err |-> ~(InChronoDays(d0) /\ InChronoDays(d1) /\ InChronoDays(d2)), v |-> d2]
+Date32Shift(a, sgn, iv) == DateShift(a, sgn, iv)
+Date64Shift(a, sgn, iv) ==
+  LET r == DateShift(TruncDaysOfMs(a), sgn, iv) IN [err |-> r.err, v |-> Mul(r.v, FromInt(MsPerDay))]
+(* timestamp of unit 10^-e s in a fixed-offset zone: the offset cancels          *)
+TsShift(ts, e, sgn, iv) ==
+  LET dd == IF sgn = 1 THEN iv[1] ELSE Neg(iv[1])
+      ms == IF sgn = 1 THEN iv[2] ELSE Neg(iv[2])
+      x  == IF e >= 3 THEN Add(ts, Add(MulPow10(Mul(dd, FromInt(86400)), e), MulPow10(ms, e - 3)))
+            ELSE FloorDivPow10(Add(MulPow10(ts, 3), Add(Mul(dd, FromInt(MsPerDay)), ms)), 3)
+      s0 == FloorDivPow10(ts, e)
+      s1 == Add(s0, Mul(dd, FromInt(86400)))
+  IN [err |-> ~(InChronoS(s0) /\ InChronoS(s1) /\ BIn(64, 1, x) /\ InChronoS(FloorDivPow10(x, e))), v |-> x]
+
+(* ------------------------ fixed point multiplication ---------------------- *)
+(* multiply_fixed_point*(Decimal128(p1,s1), Decimal128(p2,s2), required scale): *)
+(* the product rounded half away from zero to the required scale                 *)
+FixedPointType(p1, s1, p2, s2, req) ==
+  [err |-> req > s1 + s2, p |-> Min2(p1 + p2 + 1, 38), s |-> req]
+FixedPointVal(a, b, s1, s2, req) == RoundDivPow10(Mul(a, b), s1 + s2 - req)
+
+(* ------------------------- bitwise kernels, w <= 16 ----------------------- *)
+IUns(w, x) == x % (2 ^ w)                                \* the bit pattern as a natural number
+IBitwise(op, w, sg, a, b) ==
+  CASE op \in {"and", "or", "xor"} -> IWrap(w, sg, BitOp(op, IUns(w, a), IUns(w, b), w))
+    [] op = "and_not" -> IWrap(w, sg, BitOp("and", IUns(w, a), (2 ^ w - 1) - IUns(w, b), w))
+    [] op = "not"     -> IWrap(w, sg, (2 ^ w - 1) - IUns(w, a))
+    [] op = "shl"     -> IWrap(w, sg, IUns(w, a) * 2 ^ (b % w))     \* wrapping_shl: shift modulo the width
+    [] op = "shr"     -> a \div (2 ^ (b % w))                        \* arithmetic for signed, logical for unsigned
 
 (* --------------------------------- aggregates ---------------------------- *)
 RECURSIVE SumFrom(_, _, _)
@@ -257,15 +316,6 @@ IsFloatMaxOf(keys, valid, k) ==
   /\ \E i \in 1..Len(keys) : valid[i] = 1 /\ keys[i] = k
   /\ \A i \in 1..Len(keys) : valid[i] = 1 => FloatLe(keys[i], k)
 
-(* bitwise folds on non-negative integers below 2^16 (wider values are logged *)
-(* as sequences of 16-bit chunks)                                             *)
-RECURSIVE BitOp(_, _, _, _)
-BitOp(f, a, b, n) ==       \* f in {"and", "or", "xor"} on n bits
-  IF n = 0 THEN 0
-  ELSE LET x == a % 2
-           y == b % 2
-           z == CASE f = "and" -> x * y [] f = "or" -> Max2(x, y) [] f = "xor" -> (x + y) % 2
-       IN z + 2 * BitOp(f, a \div 2, b \div 2, n - 1)
 ChunkOp(f, a, b) == [j \in 1..Len(a) |-> BitOp(f, a[j], b[j], 16)]
 RECURSIVE BitFold(_, _, _, _, _)
 BitFold(f, rows, valid, i, acc) ==
